@@ -55,6 +55,10 @@ def augment_exception_message_and_reraise(exception, message):
           setattr(proxy, name, getattr(exception, name))
         except (AttributeError, TypeError):
           pass  # Unset on the original, or read-only.
+  # Instance attributes shadow class-level attributes of the same name on the
+  # original; they have to do so on the proxy as well (normal lookup finds the
+  # class-level attribute before `__getattr__` is consulted).
+  proxy.__dict__.update(getattr(exception, '__dict__', {}))
   ExceptionProxy.__qualname__ = type(exception).__qualname__
   raise proxy.with_traceback(exception.__traceback__)
 
